@@ -125,6 +125,22 @@ Theorem C07_wmc_partial :
 Proof. exact wmc_sum. Qed.
 Print Assumptions C07_wmc_partial.
 
+(* (5, stretch) gradient of an Independent variable v: diff_sdd::wmc_gradient computes
+   wmc[pos v := 1, neg v := 0] - wmc[pos v := 0, neg v := 1], which (by the theorem above, applied to the two
+   re-weighted managers) is the truth-table sum with v forced true minus the one with v forced false, i.e. the
+   derivative of the truth-table sum in pos v when neg v = 1 - pos v.  Same partiality as C07_wmc_partial
+   (decomp_ok is a hypothesis); exclusive-group variables are only compared numerically by the check. *)
+Theorem C07_gradient_indep_partial :
+  forall m vs id v sigma0,
+    MInv m -> decomp_ok m = true -> lits_in vs m = true -> validh m id ->
+    kind_of m v = Indep ->
+    normalised vs (set_weights v 1 0 m) = true -> normalised vs (set_weights v 0 1 m) = true ->
+    grad_var m id v ==
+      wsum (pos_of (set_weights v 1 0 m)) (neg_of (set_weights v 1 0 m)) vs (fun s => b2q (den m id s)) sigma0
+    - wsum (pos_of (set_weights v 0 1 m)) (neg_of (set_weights v 0 1 m)) vs (fun s => b2q (den m id s)) sigma0.
+Proof. exact grad_indep. Qed.
+Print Assumptions C07_gradient_indep_partial.
+
 (* (4) BOUNDED canonicity, three variables.  m3 order / h3 order: the model's manager after registering
    variables 0,1,2 in the given order and building all 256 functions as disjunctions of minterms, and
    the table of their handles.  Proved by evaluating the sweep (2 x 65536 applies + 256 negates) with the
@@ -144,6 +160,16 @@ Print Assumptions C07_canonical_3.
 (* the empty manager satisfies the invariant *)
 Example C07_inv_inhabited : MInv mgr_new.
 Proof. exact MInv_new. Qed.
+
+(* the hypotheses of C07_wmc_partial are met by a concrete reachable manager, and the value is 27/50 *)
+Example C07_wmc_example :
+  let ops := [OVar 2 (4#5) (1#5) Indep; OVar 0 (3#5) (2#5) Indep; OVar 1 (1#2) (1#2) Indep;
+              OLit 0 true None; OLit 1 true None; OLit 2 true None;
+              OApply 0 1 And None; OApply 0 2 And None; OApply 3 4 Or None]%N in
+  let s := fst (run_from 100 rinit ops) in
+  decomp_ok (rm s) = true /\ lits_in [0; 1; 2]%N (rm s) = true /\ normalised [0; 1; 2]%N (rm s) = true /\
+  Qeq_bool (wmc (rm s) (hnd s 5)) (27#50) = true.
+Proof. vm_compute. repeat split; reflexivity. Qed.
 
 (* a history with three variables introduced in the order 2,0,1; (x0&x1)|(x0&x2) is built, then the
    same disjunction is requested with the deadline expiring at the 5th checkpoint (DeadlineExceeded,
